@@ -13,6 +13,7 @@ import (
 	"math/big"
 	"runtime/debug"
 	"sort"
+	"strings"
 	"time"
 
 	"github.com/cosmos/cosmos-sdk/codec"
@@ -199,12 +200,37 @@ type BlockerError struct {
 
 func (e *BlockerError) Error() string {
 	if e.Deadlock {
-		return fmt.Sprintf("%s: deadlock: %s", e.Where, e.Stack)
+		return fmt.Sprintf("%s: deadlock (goroutine waits for the MemDB write lock under its own open iterator): %s", e.Where, briefStack(e.Stack))
 	}
 	if e.Overrun {
 		return fmt.Sprintf("%s: did not finish within the watchdog budget (inconclusive)", e.Where)
 	}
-	return fmt.Sprintf("%s: panic: %v", e.Where, e.Panic)
+	return fmt.Sprintf("%s: panic: %v [%s]", e.Where, e.Panic, briefStack(e.Stack))
+}
+
+// briefStack keeps the function names of the module frames only.
+func briefStack(st string) string {
+	var out []string
+	for _, l := range strings.Split(st, "\n") {
+		if strings.HasPrefix(l, "github.com/MinterTeam/mhub2/module/") {
+			l = strings.TrimPrefix(l, "github.com/MinterTeam/mhub2/module/")
+			if i := strings.Index(l, "("); i > 0 {
+				j := strings.Index(l[i:], ")")
+				if strings.HasPrefix(l[i:], "(*") && j > 0 {
+					if k := strings.Index(l[i+j:], "("); k > 0 {
+						l = l[:i+j+k]
+					}
+				} else {
+					l = l[:i]
+				}
+			}
+			out = append(out, l)
+		}
+	}
+	if len(out) > 8 {
+		out = out[:8]
+	}
+	return strings.Join(out, " < ")
 }
 
 func NewHub(cfg Config) *Hub {
